@@ -16,6 +16,8 @@ func checkC12(c *fw.Ctx) {
 	c.NotDecidedClause("liveness ('succeeds whenever the database or a fetcher supplies such a key') and behaviour under fetcher fault sequences")
 	c.NotDecidedClause("cryptographic validity (C02)")
 	checkUsingKeysRule(c)
+	checkSelfVerifier(c)
+	checkFetchedOverwrite(c)
 	checkValidityTables(c)
 	checkVerifyJSONsFlow(c)
 	checkFetchers(c)
@@ -73,6 +75,23 @@ func nilAlternatives(c *fw.Ctx, v ssa.Value, fr *fw.Frame, at *ssa.BasicBlock, o
 			continue
 		}
 		pos := c.P.Pos(r.Via.Instrs[0].Pos())
+		// known nil on this alternative (`if err != nil { continue }; x.Error = err`)
+		knownNil := len(cond) > 0
+		for _, term := range cond {
+			has := false
+			for _, l := range term {
+				if l.Pos && l.Atom == "("+sig+" == nil)" {
+					has = true
+				}
+			}
+			if !has {
+				knownNil = false
+			}
+		}
+		if _, isC := val.(*ssa.Const); !isC && knownNil {
+			out = append(out, nilAlt{"nil", cond, pos, sig + " (nil on this path)"})
+			continue
+		}
 		switch x := val.(type) {
 		case *ssa.Const:
 			if x.Value == nil {
@@ -217,6 +236,59 @@ func checkUsingKeysRule(c *fw.Ctx) {
 	}
 }
 
+// checkSelfVerifier: the pseudo-ID verifier marks a request verified only with VerifyJSON's own result.
+func checkSelfVerifier(c *fw.Ctx) {
+	rule := "1 accept"
+	fn := c.P.Func("(JSONVerifierSelf).VerifyJSONs")
+	if fn == nil {
+		return
+	}
+	for _, ds := range deepFieldStores(fn, "VerifyJSONResult", "Error") {
+		bad := ""
+		for _, a := range nilAlternatives(c, ds.St.Val, ds.Fr, ds.St.Block(), fw.DNF{fw.Term{}}, 0) {
+			switch a.kind {
+			case "nil":
+				ok := true
+				for _, term := range a.cond {
+					if !termHas(term, lit{[]string{"(gmsl.VerifyJSON(", " == nil)"}, true}) {
+						ok = false
+					}
+				}
+				if !ok {
+					bad = a.desc + " at " + a.pos
+				}
+			case "other":
+				c.Undecided(rule, "JSONVerifierSelf reports a request verified only on VerifyJSON's nil result", "a stored error could not be classified: "+a.desc)
+			}
+		}
+		c.Check(bad == "", rule, "JSONVerifierSelf reports a request verified only on VerifyJSON's nil result", c.P.Pos(fw.InstrPos(ds.St)), "", "a nil error is stored without a successful VerifyJSON ("+bad+"): a required signer whose key cannot be used counts as verified")
+	}
+}
+
+// checkFetchedOverwrite: keys returned by a fetcher replace what the database supplied (the
+// database copy may be stale, which is why the key was requested again).
+func checkFetchedOverwrite(c *fw.Ctx) {
+	rule := "3 flow"
+	fn := c.P.Func("(KeyRing).VerifyJSONs")
+	if fn == nil {
+		return
+	}
+	for _, di := range fw.DeepInstrs(fn, nil) {
+		mu, ok := di.Instr.(*ssa.MapUpdate)
+		if !ok || !strings.Contains(mu.Map.Type().String(), "PublicKeyLookupRequest]") || !strings.Contains(fw.SigIn(di.Fr, mu.Value), "KeyFetchers") {
+			continue
+		}
+		mapSig := fw.SigIn(di.Fr, mu.Map)
+		guarded := ""
+		for _, f := range fw.DeepFacts(di.Fr, mu.Block()) {
+			if strings.HasPrefix(strings.TrimPrefix(f, "!"), mapSig+"[") {
+				guarded = f
+			}
+		}
+		c.Check(guarded == "", rule, "a fetched key replaces the database's copy", c.P.Pos(fw.InstrPos(mu)), "", "the fetched key is stored only under "+guarded+": a stale database entry (lapsed valid_until_ts, or since expired) keeps being used although a fresh answer was obtained")
+	}
+}
+
 // siteBlock: the block of the outermost-but-one call site of a deep store (for CondAt).
 func siteBlock(ds deepStore) *ssa.BasicBlock {
 	if ds.Fr == nil {
@@ -228,7 +300,10 @@ func siteBlock(ds deepStore) *ssa.BasicBlock {
 func checkValidityTables(c *fw.Ctx) {
 	rule := "2 validity"
 	if fn := mustFunc(c, rule, "(PublicKeyLookupResult).WasValidAt"); fn != nil {
-		ip := &interp{bools: map[string]string{"(*&recv.ExpiredTS == 0)": "notExpired"}}
+		// tests of other fields of the key record are independent inputs: the rule must hold whatever they say
+		ip := &interp{bools: map[string]string{"(*&recv.ExpiredTS == 0)": "notExpired"}, free: func(atom string) bool {
+			return strings.HasPrefix(atom, "(*&recv.") && (strings.HasSuffix(atom, " == 0)") || strings.HasSuffix(atom, " == nil)"))
+		}}
 		compareTable(c, rule, "expired keys: at < expired_ts; otherwise the signature validity rule on valid_until_ts", fn, 0, []tvar{{"notExpired", tf}}, ip, func(a asg) string {
 			if a["notExpired"] == "true" {
 				return "value:dyn(param:signatureValidityCheck)(param:atTs,*&recv.ValidUntilTS)"
@@ -377,14 +452,33 @@ func checkVerifyJSONsFlow(c *fw.Ctx) {
 		}
 	}
 	c.Check(okLen, rule, "one result per request", c.P.Pos(fn.Pos()), "", "results is not make([]VerifyJSONResult, len(requests))")
-	// first loop: every request starts failed (three non-nil stores, none nil)
+	// every request starts failed: VerifyJSONs itself (outside checkUsingKeys) stores no error that can be nil
 	nonNil := 0
-	for _, st := range fw.FieldStores(fn, "VerifyJSONResult", "Error") {
-		if cc, _ := fw.CallOf(st.Val); cc != nil && fw.CalleeName(cc) == "fmt.Errorf" {
-			nonNil++
-		} else {
-			c.Fail(rule, "VerifyJSONs itself never marks a result successful", c.P.Pos(fw.InstrPos(st)), "stores "+fw.Sig(st.Val))
+	stopCheck := func(f *ssa.Function) bool { return fw.FuncName(f) == "(*gmsl.KeyRing).checkUsingKeys" }
+	for _, di := range fw.DeepInstrs(fn, stopCheck) {
+		st, isSt := di.Instr.(*ssa.Store)
+		if !isSt {
+			continue
 		}
+		fa, isFA := st.Addr.(*ssa.FieldAddr)
+		if !isFA {
+			continue
+		}
+		sty := derefStructOf(fa.X.Type())
+		if sty == nil || sty.Field(fa.Field).Name() != "Error" || !strings.HasSuffix(fw.Short(strings.TrimPrefix(fa.X.Type().String(), "*")), "VerifyJSONResult") {
+			continue
+		}
+		nonNil++
+		bad := ""
+		for _, a := range nilAlternatives(c, st.Val, di.Fr, st.Block(), fw.DNF{fw.Term{}}, 0) {
+			switch a.kind {
+			case "nil", "verify":
+				bad = a.desc + " at " + a.pos
+			case "other":
+				c.Undecided(rule, "VerifyJSONs itself never marks a result successful", "a value stored into a result's Error could not be classified: "+a.desc)
+			}
+		}
+		c.Check(bad == "", rule, "VerifyJSONs itself never marks a result successful", c.P.Pos(fw.InstrPos(st)), "", "a possibly-nil error is stored ("+bad+"): a request is reported verified although no key was tried")
 	}
 	c.Min(rule+" initial failure stores", nonNil, 1)
 	if pk := mustFunc(c, rule, "(*KeyRing).publicKeyRequests"); pk != nil {
@@ -426,6 +520,23 @@ func checkFetchers(c *fw.Ctx) {
 		}
 	}
 	c.Min(rule+" accept sites", n, 1)
+	// a server asked directly for its own keys is checked against the name it was asked under, not
+	// against the name its response claims (a response naming another server would check itself)
+	if fn := c.P.Func("(*DirectKeyFetcher).fetchKeysForServer"); fn != nil {
+		for _, dc := range deepCallsTo(fn, fw.NameIs("gmsl.CheckKeys")) {
+			args := dc.Call.Common().Args
+			a0, a2 := fw.SigIn(dc.Fr, args[0]), strings.TrimPrefix(fw.SigIn(dc.Fr, args[2]), "*&")
+			construct := "fetchKeysForServer: the response is checked against the server name that was asked"
+			switch {
+			case isParamDeep(args[0], dc.Fr, fn, 2):
+				c.Ok(rule, construct, c.P.Pos(dc.Call.Pos()), a0)
+			case a2 != "" && strings.Contains(a0, a2):
+				c.Fail(rule, construct, c.P.Pos(dc.Call.Pos()), "CheckKeys compares the response's server name with "+a0+", which is taken from the response itself: any self-signed response passes, and its keys are filed under the name it claims")
+			default:
+				c.Undecided(rule, construct, "expected server name is "+a0)
+			}
+		}
+	}
 	// perspective: notary signature verified with a configured key, decided per response
 	if fn := c.P.Func("(*PerspectiveKeyFetcher).FetchKeys"); fn != nil {
 		for _, call := range fw.CallsTo(fn, false, mapper) {
@@ -499,24 +610,28 @@ func checkCheckKeys(c *fw.Ctx) {
 	}
 	c.Check(strings.HasPrefix(got["AllChecksOK"], "phi(false|") && strings.Contains(got["AllChecksOK"], "FutureValidUntilTS"), rule, "AllChecksOK starts as name match && future validity", c.P.Pos(fn.Pos()), "", "AllChecksOK = "+got["AllChecksOK"])
 	if v := mustFunc(c, rule, "checkVerifyKeys"); v != nil {
-		// AllChecksOK &&= HasEd25519Key && allEd25519ChecksOK ; every ed25519 key must carry a valid self-signature
-		okConj := false
-		for _, st := range fw.FieldStores(v, "KeyChecks", "AllChecksOK") {
-			s := fw.Sig(st.Val)
-			if strings.HasPrefix(s, "phi(false|") && strings.Contains(condsOf(st.Block()), "AllChecksOK") {
-				// the phi's true-side predecessor is guarded by HasEd25519Key
-				if phi, isPhi := st.Val.(*ssa.Phi); isPhi {
-					for i, e := range phi.Edges {
-						if _, isC := e.(*ssa.Const); !isC {
-							if strings.Contains(condsOf(phi.Block().Preds[i]), "HasEd25519Key") {
-								okConj = true
-							}
-						}
-					}
+		// AllChecksOK &&= HasEd25519Key && allEd25519ChecksOK: whenever the stored value is true, the
+		// previous verdict, the presence of an ed25519 key and the all-keys-signed flag were true
+		nst := 0
+		for _, ds := range deepFieldStores(v, "KeyChecks", "AllChecksOK") {
+			nst++
+			d, err := trueDNF(ds.St.Parent(), ds.St.Val, ds.St.Block())
+			if err != nil {
+				c.Undecided(rule, "AllChecksOK additionally requires an ed25519 key and valid self-signatures", err.Error())
+				continue
+			}
+			missing := ""
+			for _, term := range d {
+				if !termHas(term, lit{[]string{".AllChecksOK"}, true}) {
+					missing = "the verdict so far (name match and future validity)"
+				}
+				if !termHas(term, lit{[]string{".HasEd25519Key"}, true}) {
+					missing = "the presence of an ed25519 key"
 				}
 			}
+			c.Check(missing == "", rule, "AllChecksOK additionally requires an ed25519 key and valid self-signatures", c.P.Pos(fw.InstrPos(ds.St)), "", "AllChecksOK can become true without "+missing+": it is assigned "+fw.Sig(ds.St.Val)+" under ["+condsOf(ds.St.Block())+"]")
 		}
-		c.Check(okConj, rule, "AllChecksOK additionally requires an ed25519 key and valid self-signatures", c.P.Pos(v.Pos()), "", "no conjunction with HasEd25519Key && allEd25519ChecksOK")
+		c.Expect(nst > 0, rule, "checkVerifyKeys folds the key checks into AllChecksOK", c.P.Pos(v.Pos()), "", "no store to KeyChecks.AllChecksOK found in checkVerifyKeys")
 		vj := fw.CallsTo(v, false, fw.NameIs("gmsl.VerifyJSON"))
 		okV := len(vj) == 1
 		if okV {
